@@ -1,7 +1,7 @@
 """C07 — executing a built program never panics the host."""
 import json, os, random
 import vlib, progsuite, opsuite
-from gen import proggen, opgen, panic_sites
+from gen import proggen, opgen, panic_sites, accessgen
 
 BOUNDARY_LITS = ['2147483647', '2147483648', '0', '1', '1e308', '1.7976931348623157e308', '0.0000001', '""', '"é"', '"😀a"', "''", "'a'", '31', '32', '33', '1000000',
                  '(0 - 1)', '(0 - 2147483647 - 1)', '1.5', '(0 - 0.5)', '()', '$?', ':a', ':café', ':日本_x']
@@ -14,11 +14,16 @@ def run(ctx):
     ctx.oblige('panic-site inventory: no panic-capable construct outside the reviewed baseline', 'translator', not new,
                '\n'.join(panic_sites.key(s) for s in new[:20]))
     cases = []
+    acc_cases = []
     if ctx.replay:
         rp = json.load(open(ctx.replay))
         for f in [rp.get('failure')] + rp.get('more', []):
             if f and f.get('case'):
-                c = f['case']; cases.append(c[:1] + [str(len(cases))] + c[2:])
+                c = f['case']
+                if c[0] == 'ACCESS':
+                    acc_cases.append(c)
+                else:
+                    cases.append(c[:1] + [str(len(cases))] + c[2:])
     else:
         rnd = random.Random(ctx.seed + 7)
         def add(src, st, inp='-', host='-'):
@@ -43,6 +48,7 @@ def run(ctx):
         ends = ['0', '1', '2', '3', '5', '-1', '7', '2147483647', '-2147483648', '1.5'] if ctx.tier == 'thorough' else ['0', '1', '3', '5', '-1', '2147483647', '1.5']
         conts = ['(1 2 3 4)', '"héllo"', "'abcd'", '(:a :b :c)', '((1 2) <> (3 4))', '(:k = 1, :j = 2, 3)']
         uses = ['%s', '(%s) == (%s)', '(%s) != "l"', '(%s) ~# (,)', '(%s) ~# ""', "(%s) ~# ''", '(%s) . 0', '(%s) .|', '_. (%s)', '(%s) <> (%s)', '((%s) <> 9) . 1', '(%s) . :k', '(%s) <~ (0 .. 1)', '#(%s)', '(%s) < (%s)', '7 8, (%s)']
+        walked = ['((%s) <> 9) == (4 <> 5)', '(8 <> (%s)) != (8 <> (%s))', '((%s) <> 9) ~# (,)', '(8 <> (%s)) ~# ""', '((%s) <> 9) . :k', '((%s) <> 9) . 2', '((%s) <> 9) <~ (0 .. 1)', '(8 <> (%s) <> 9) .|']
         for a in ends:
             for b in ends:
                 if (a, b) in (('-2147483648', '2147483647'), ('0', '2147483647'), ('1', '2147483647'), ('-1', '2147483647'), ('1.5', '2147483647'), ('3', '2147483647'), ('5', '2147483647'), ('2', '2147483647'), ('7', '2147483647')):
@@ -61,6 +67,11 @@ def run(ctx):
                         sl = f'{cont} <~ {r}'
                         for u in (uses if ctx.tier == 'thorough' else rnd.sample(uses, 5)):
                             add(u.replace('%s', sl), rnd.choice(progsuite.STORES), host=rnd.choice(progsuite.HOSTS))
+                        # the slice as an ITEM of a concatenation that is then walked (equality, casts, access, length): the
+                        # data implementations flatten such a concatenation with their own extent arithmetic (both stores, always)
+                        for u in walked:
+                            for st in progsuite.STORES:
+                                add(u.replace('%s', sl), st)
         # generated programs (deeply nested data included), both stores, three host modes
         progs = progsuite.gen_programs(ctx, 1500 if ctx.tier == 'quick' else 40000, 1)
         for src, ast, root, stream in progs:
@@ -73,7 +84,9 @@ def run(ctx):
     ops_cases = [] if ctx.replay else opgen.gen_cases()
     if ctx.tier == 'quick' and ops_cases:
         ops_cases = ops_cases[::3]
-    ctx.evaluations = len(cases) + len(ops_cases)
+    if not ctx.replay:
+        acc_cases = accessgen.gen_cases(ctx.seed, ctx.tier)
+    ctx.evaluations = len(cases) + len(ops_cases) + len(acc_cases)
     if not h_ok:
         return
     impl = vlib.run_impl(cases, 'c07', per_case_s=5.0)
@@ -93,10 +106,30 @@ def run(ctx):
             if k in ('PANIC', 'ABORT', 'missing', 'HANG'):
                 ctx.fail('oracle', c, impl=r, expect='Ok or Err', note=f'{k} executing one instruction')
             stats['op:' + k] = stats.get('op:' + k, 0) + 1
+    # correspondence: the index / extent arithmetic of the accessors, iterator constructors and of the runtime's access path,
+    # real code against the statement-level models of Model/Access*.lean (the theorems of Props/C07Access are about those)
+    if acc_cases:
+        ai = vlib.run_impl(acc_cases, 'c07acc', per_case_s=5.0)
+        am = vlib.run_model(acc_cases, 'c07acc') if drv_ok else {}
+        for c in acc_cases:
+            ri, rm = ai.get(c[1], 'missing'), am.get(c[1], 'missing')
+            k = ri.split(' ')[0]
+            ctx.distinct.add((c[3], c[2], c[4]))
+            if k in ('PANIC', 'ABORT', 'missing', 'HANG'):
+                ctx.fail('oracle', c, impl=ri, model=rm, expect='ok / none / err from every accessor', note=f'{k} in an accessor, iterator constructor or access step (ACCESS suite)')
+            elif drv_ok and ri != rm:
+                ctx.fail('corr', c, impl=ri, model=rm, expect=rm, note='index / extent arithmetic differs from Model/Access*.lean (ACCESS suite)')
+            stats['acc:' + ('agree' if ri == rm else k)] = stats.get('acc:' + ('agree' if ri == rm else k), 0) + 1
+        for c in acc_cases[:: max(1, len(acc_cases) // 4)][:4]:
+            ctx.sample({'suite': 'ACCESS', 'store': c[2], 'term': c[3][:120], 'queries': c[4][:160], 'impl': ai.get(c[1], '')[:300], 'model': am.get(c[1], '')[:300]}, cap=90)
     ctx.rule = ('RUN cases: boundary literals (i32 limits, huge floats, empty and multi-byte text, shift counts 31/32/33, negative and fractional numbers) under binary operators in both orders and in indexing / slicing / casting / range shapes, '
                 'generated core-language programs, deeply nested groups/lists/expressions; OP matrix (every instruction x every type pair); all on both stores with callbacks absent / declining / accepting; oracle: no PANIC, no ABORT, no HANG — every step returns Ok or Err; '
-                'plus the regenerated panic-site inventory against its reviewed baseline; distinct = distinct (source, store).')
-    ctx.suites = {'RUN': len(cases), 'OP': len(ops_cases), 'outcomes': stats, 'panic_sites': len(cur)}
+                'plus the regenerated panic-site inventory against its reviewed baseline; '
+                'ACCESS cases: every item getter and iterator constructor of both data objects, and access / apply with integer and symbol keys, on sequences of length 0..5 and long ones '
+                '(multi-byte text, byte extremes, symbol lists with numbers, nested lists, concatenations with lists / slices / slices of concatenations inside, slices of slices) with indexes and extents from '
+                '{MIN, MIN+1, -2, -1, 0, 1, len-1, len, len+1, MAX-1, MAX} and float indexes (fractional, huge, infinite, NaN); model answer must equal the implementation answer; '
+                'distinct = distinct (source, store) resp. (term, store, queries).')
+    ctx.suites = {'RUN': len(cases), 'OP': len(ops_cases), 'ACCESS': len(acc_cases), 'outcomes': stats, 'panic_sites': len(cur)}
     for c in cases[:: max(1, len(cases) // 6)][:6]:
         ctx.sample({'source': vlib.unesc(c[3]), 'store': c[2], 'impl': impl.get(c[1])}, cap=80)
     ctx.trusted += ['panic-site inventory is a syntactic over-approximation of the anchored files (tools/gen/panic_sites.py); panics inside std or unanchored files are only visible to the oracle',
